@@ -61,6 +61,8 @@ type Frame struct {
 	argSrc       map[string]string          // parameter name -> the caller's source text of the argument (inlined frames)
 	blockR       map[*ssa.BasicBlock]string // guard of each block executed so far
 	entryR       string                     // guard under which the function is entered
+	aliasBound   map[string]string          // recorded name -> current name it was bound to by the last bindLocals
+	domBound     map[string]bool            // names bound by the last bindLocals from a dominating definition
 	posPath      string                     // chain of call positions from the function under contract to this (inlined) frame
 	expLoops     map[string]string          // (top frame) loop descriptors numbered over the expanded text
 	aliasOK      bool
